@@ -137,6 +137,9 @@ func c12Do(c *restful.Container, serve bool, q h.Req) string {
 // field-granular detector of E3 cannot see) is reported by the Go race detector.
 func freerunC12(iters int) {
 	for _, sp := range c12Specs {
+		if sp.name == "panicking-condition" {
+			continue // nothing to race on; with a leaked lock uncontrolled goroutines would just hang
+		}
 		for _, jsr := range []bool{false, true} {
 			for _, serve := range []bool{true, false} {
 				for it := 0; it < iters; it++ {
